@@ -671,7 +671,9 @@ def evaluate__idiv_operator(self: XPathToken, context: ta.ContextType = None) ->
         raise self.error('XPST0005')
 
     try:
-        if math.isinf(op1):
+        if isinstance(op1, int) and isinstance(op2, int):
+            pass  # integers of any size are finite numbers
+        elif math.isinf(op1):
             raise self.error('FOAR0001' if op2 == 0 else 'FOAR0002')
         elif math.isnan(op1) or math.isnan(op2):
             raise self.error('FOAR0002')
@@ -679,6 +681,8 @@ def evaluate__idiv_operator(self: XPathToken, context: ta.ContextType = None) ->
         if isinstance(context, XPathSchemaContext):
             return 1
         raise self.error('XPTY0004', err) from None
+    except OverflowError as err:
+        raise self.error('FOAR0002', err) from None
 
     try:
         result = op1 // op2
